@@ -190,57 +190,11 @@ func (c *BehavCheck) Run() int {
 		mcNotes = append(mcNotes, fmt.Sprintf("%s: %d distinct states, %d transitions, depth %d, %.1fs", mc.Module, r.Distinct, r.Generated, r.Depth, r.Wall.Seconds()))
 	}
 	// 2. TLC generates behaviours
-	modName, modText := genModule(c.Sim.Module, c.Sim.Classes)
-	// several single-worker TLC processes with different seeds: within one process all workers
-	// draw the same sequence of action classes
-	procs := c.Sim.Workers
-	if procs <= 0 {
-		procs = 8
+	behs, simGenerated, err := GenerateBehaviours(c.Sim, c.Seed)
+	if err != nil {
+		return fail(2, "INCONCLUSIVE: "+err.Error())
 	}
-	srs := make([]*tlcrun.Result, procs)
-	errs := make([]error, procs)
-	var swg sync.WaitGroup
-	for pi := 0; pi < procs; pi++ {
-		swg.Add(1)
-		go func(pi int) {
-			defer swg.Done()
-			srs[pi], errs[pi] = tlcrun.Run(tlcrun.Opts{Module: modName, Files: map[string]string{modName + ".tla": modText}, CfgText: c.Sim.cfg(), Workers: 1,
-				Simulate: fmt.Sprintf("num=%d", c.Sim.Num), Depth: c.Sim.D + 3, Seed: c.Seed*1000 + int64(pi), Tag: "TRACE", Timeout: 20 * time.Minute, JavaOpts: "-Xmx3g"})
-		}(pi)
-	}
-	swg.Wait()
-	sr := &tlcrun.Result{}
-	for pi := 0; pi < procs; pi++ {
-		if errs[pi] != nil {
-			return fail(2, "INCONCLUSIVE: TLC simulation failed: "+errs[pi].Error())
-		}
-		if srs[pi].Violation != "" {
-			return fail(2, "INCONCLUSIVE: TLC reports a violated invariant during simulation: "+srs[pi].Violation+"\n"+lastLines(srs[pi].Output, 30))
-		}
-		sr.Generated += srs[pi].Generated
-		sr.Lines = append(sr.Lines, srs[pi].Lines...)
-	}
-	transitions += sr.Generated
-	var behs []*model.Behaviour
-	seen := map[string]bool{}
-	for _, line := range sr.Lines {
-		js, ok := model.ExtractJSON(line, "TRACE")
-		if !ok {
-			return fail(2, "INCONCLUSIVE: unparsable TRACE line from TLC")
-		}
-		if seen[js] {
-			continue
-		}
-		seen[js] = true
-		b, err := model.ParseBehaviour(js)
-		if err != nil {
-			return fail(2, "INCONCLUSIVE: "+err.Error())
-		}
-		behs = append(behs, b)
-	}
-	if len(behs) == 0 {
-		return fail(2, "INCONCLUSIVE: TLC produced no behaviour")
-	}
+	transitions += simGenerated
 	// 3. replay
 	rng := rand.New(rand.NewSource(c.Seed))
 	type job struct {
@@ -490,6 +444,81 @@ func (c *BehavCheck) Run() int {
 	fmt.Printf("OK property=%s tier=%s seed=%d: %d behaviours x %d configurations replayed (%d steps, %d observations), spec: %d states / %d transitions, %.0fs\n",
 		c.ID, c.Tier, c.Seed, len(behs), per, steps, observations, states, transitions, time.Since(start).Seconds())
 	return 0
+}
+
+
+// GenerateBehaviours runs several single-worker TLC simulations (different seeds: within one process
+// all workers draw the same sequence of action classes) and parses the behaviours they print.
+func GenerateBehaviours(sim SimSpec, seed int64) ([]*model.Behaviour, int64, error) {
+	modName, modText := genModule(sim.Module, sim.Classes)
+	procs := sim.Workers
+	if procs <= 0 {
+		procs = 8
+	}
+	srs := make([]*tlcrun.Result, procs)
+	errs := make([]error, procs)
+	var swg sync.WaitGroup
+	for pi := 0; pi < procs; pi++ {
+		swg.Add(1)
+		go func(pi int) {
+			defer swg.Done()
+			srs[pi], errs[pi] = tlcrun.Run(tlcrun.Opts{Module: modName, Files: map[string]string{modName + ".tla": modText}, CfgText: sim.cfg(), Workers: 1,
+				Simulate: fmt.Sprintf("num=%d", sim.Num), Depth: sim.D + 3, Seed: seed*1000 + int64(pi), Tag: "TRACE", Timeout: 20 * time.Minute, JavaOpts: "-Xmx3g"})
+		}(pi)
+	}
+	swg.Wait()
+	var generated int64
+	var lines []string
+	for pi := 0; pi < procs; pi++ {
+		if errs[pi] != nil {
+			return nil, 0, fmt.Errorf("TLC simulation failed: %v", errs[pi])
+		}
+		if srs[pi].Violation != "" {
+			return nil, 0, fmt.Errorf("TLC reports a violated invariant during simulation: %s\n%s", srs[pi].Violation, lastLines(srs[pi].Output, 30))
+		}
+		generated += srs[pi].Generated
+		lines = append(lines, srs[pi].Lines...)
+	}
+	var behs []*model.Behaviour
+	seen := map[string]bool{}
+	for _, line := range lines {
+		js, ok := model.ExtractJSON(line, "TRACE")
+		if !ok {
+			return nil, 0, fmt.Errorf("unparsable TRACE line from TLC")
+		}
+		if seen[js] {
+			continue
+		}
+		seen[js] = true
+		b, err := model.ParseBehaviour(js)
+		if err != nil {
+			return nil, 0, err
+		}
+		behs = append(behs, b)
+	}
+	if len(behs) == 0 {
+		return nil, 0, fmt.Errorf("TLC produced no behaviour")
+	}
+	return behs, generated, nil
+}
+
+// RunMc model-checks the bounded instances.
+func RunMc(mcs []McSpec) (states, transitions int64, done bool, notes []string, err error) {
+	done = true
+	for _, mc := range mcs {
+		r, e := tlcrun.Run(tlcrun.Opts{Module: mc.Module, CfgText: mc.CfgText, Workers: mc.Workers, Timeout: mc.Timeout})
+		if e != nil {
+			return 0, 0, false, nil, fmt.Errorf("TLC model checking failed: %v", e)
+		}
+		if r.Violation != "" {
+			return 0, 0, false, nil, fmt.Errorf("TLC reports a violated invariant on the specification: %s\n%s", r.Violation, lastLines(r.Output, 30))
+		}
+		states += r.Distinct
+		transitions += r.Generated
+		done = done && r.Finished
+		notes = append(notes, fmt.Sprintf("%s: %d distinct states, %d transitions, depth %d, %.1fs", mc.Module, r.Distinct, r.Generated, r.Depth, r.Wall.Seconds()))
+	}
+	return
 }
 
 func minInt(a, b int) int {
